@@ -5,13 +5,216 @@ use crate::model::*;
 use crate::oracle::*;
 use crate::world::*;
 
-#[allow(dead_code)]
 fn v(out: &mut Vec<Violation>, prop: &'static str, clause: &'static str, detail: String) {
     out.push(Violation { prop, clause, detail, known: None });
 }
 
-pub fn c13(_d: &Digest, _out: &mut Vec<Violation>) {}
+fn vk(out: &mut Vec<Violation>, prop: &'static str, clause: &'static str, detail: String, known: &'static str) {
+    out.push(Violation { prop, clause, detail, known: Some(known) });
+}
 
-pub fn check_rest(_d: &Digest, _out: &mut Vec<Violation>) {
-    let _ = (Policy::Block, BlockOn::Mutex);
+pub fn check_rest(d: &Digest, out: &mut Vec<Violation>) {
+    for s in 0..d.stores.len() {
+        if d.stores[s].built != Some(true) {
+            continue;
+        }
+        c04(d, s, out);
+        crate::oracle3::c05_c06(d, s, out);
+        crate::oracle3::c18(d, s, out);
+        crate::oracle4::c09_c10(d, s, out);
+        crate::oracle4::c14(d, s, out);
+        crate::oracle4::c16(d, s, out);
+        crate::oracle5::c11(d, s, out);
+        crate::oracle5::c12(d, s, out);
+    }
+    crate::oracle5::c17(d, out);
+    c13_complete(d, out);
+}
+
+/// events that count as "a reducer, middleware or subscriber callback of store s"
+fn callback_of_store(d: &Digest, s: usize, e: &Ev, stop_inv: usize) -> bool {
+    match &e.k {
+        K::RedB { store, .. } | K::RedE { store, .. } | K::MwB { store, .. } | K::MwE { store, .. } | K::MwErr { store, .. } => *store == s,
+        K::NotB { act, .. } | K::NotE { act, .. } | K::SelCb { act, .. } => d.act_store.get(act) == Some(&s),
+        K::Unsub { sub } => d.regs.values().any(|(sb, st, ci)| sb == sub && *st == s && d.calls[*ci].ret_or_max() < stop_inv)
+            && !d.regs.values().any(|(sb, st, _)| sb == sub && *st != s),
+        _ => false,
+    }
+}
+
+fn c04(d: &Digest, s: usize, out: &mut Vec<Violation>) {
+    let sd = &d.stores[s];
+    let pos = d.inst_positions(s);
+    // (e) Err => never reduced, every policy
+    for &ci in &sd.dispatches {
+        let c = &d.calls[ci];
+        if let (OpK::Dispatch { act, .. }, Some(Res::Err)) = (&c.op, &c.res) {
+            if pos.contains_key(act) {
+                v(out, "C04", "e:err-but-reduced", format!("store {s}: dispatch of action {act} returned Err but the action was reduced"));
+            }
+        }
+    }
+    let Some(xi) = sd.clean_stop else { return };
+    let x = &d.calls[xi];
+    let xret = x.ret.unwrap();
+    let prop: &'static str = if matches!(x.op, OpK::DropStore { .. }) { "C15" } else { "C04" };
+    // (a) + (e Ok): accepted under the blocking policy => completely processed before stop returned
+    if sd.model.policy == Policy::Block && observable(sd) && !sd.model.hole_reducers {
+        for &ci in &sd.dispatches {
+            let c = &d.calls[ci];
+            if let (OpK::Dispatch { act, .. }, true) = (&c.op, c.ok()) {
+                if c.inv > xret {
+                    continue;
+                }
+                match pos.get(act) {
+                    None => v(out, prop, "a:accepted-not-processed", format!("store {s}: action {act} was accepted (Ok) before stop() returned but never processed")),
+                    Some(p) => {
+                        let inst = &sd.insts[p[0]];
+                        if inst.last > xret {
+                            v(out, prop, "a:processed-after-stop", format!("store {s}: action {act} accepted before stop() returned was still being processed after it"));
+                        }
+                    }
+                }
+            }
+        }
+    }
+    // (b) nothing runs afterwards
+    for e in &d.ev[xret..] {
+        if callback_of_store(d, s, e, x.inv) {
+            v(out, prop, "b:callback-after-stop", format!("store {s}: {:?} after stop() had returned", e.k));
+            break;
+        }
+    }
+    // (c) dispatch after stop is rejected
+    for &ci in &sd.dispatches {
+        let c = &d.calls[ci];
+        if c.inv > xret {
+            if let OpK::Dispatch { act, via, .. } = &c.op {
+                if c.res != Some(Res::Err) {
+                    v(out, prop, "c:dispatch-after-stop-accepted", format!("store {s}: dispatch of {act} via {via:?} after stop() returned {:?}", c.res));
+                }
+                if pos.contains_key(act) {
+                    v(out, prop, "c:dispatch-after-stop-reduced", format!("store {s}: action {act} dispatched after stop() was reduced"));
+                }
+            }
+        }
+    }
+    // (d) later stop() calls return immediately
+    for &ci in &sd.shutdowns {
+        let c = &d.calls[ci];
+        if c.inv > xret && matches!(c.op, OpK::Stop { .. }) {
+            let end = c.ret.unwrap_or(d.ev.len());
+            let waited = d.ev[c.inv..end].iter().any(|e| {
+                e.tid == c.tid
+                    && match &e.k {
+                        K::Timer { .. } => true,
+                        K::Block { on } => !matches!(on, BlockOn::Mutex),
+                        _ => false,
+                    }
+            });
+            if waited {
+                v(out, prop, "d:later-stop-waits", format!("store {s}: a stop() call after the store had stopped did not return immediately"));
+            }
+        }
+    }
+    // C15: the remaining clones see the final state (C01 c covers the value; attribute here too)
+    if prop == "C15" {
+        let fin = sd.insts.last().map(|i| i.after).unwrap_or((0, 0));
+        if !sd.model.hole_reducers {
+            for c in &d.calls {
+                if let (OpK::GetState { store }, Some(Res::State { n, h, .. })) = (&c.op, &c.res) {
+                    if *store == s && c.inv > xret && (*n, *h) != fin {
+                        v(out, "C15", "clone-sees-final-state", format!("store {s}: get_state on a clone after drop returned n={n}, final n={}", fin.0));
+                    }
+                }
+            }
+        }
+    }
+}
+
+fn prog_has_stalls(p: &Program) -> bool {
+    p.gates > 0
+        || p.subs.iter().any(|s| s.sleep_ms > 0)
+        || p.acts.values().any(|a| {
+            a.red.values().any(|r| r.sleep_ms > 0 || r.eff.as_ref().map(|e| e.sleep_ms > 0).unwrap_or(false))
+                || a.mw.values().any(|m| m.thunk.as_ref().map(|e| e.sleep_ms > 0).unwrap_or(false))
+        })
+        || p.threads.iter().flatten().any(|o| match o {
+            Op::Thunk { eff, .. } | Op::Task { eff, .. } => eff.sleep_ms > 0,
+            _ => false,
+        })
+}
+
+/// C13 on runs that did not complete
+pub fn c13(d: &Digest, out: &mut Vec<Violation>) {
+    match d.run.out.end {
+        simrt::End::Deadlock => {}
+        _ => return,
+    }
+    let blocked: Vec<String> = d
+        .run
+        .out
+        .blocked
+        .iter()
+        .map(|b| format!("t{}({}) on {:?}", b.tid, b.name.clone().unwrap_or_default(), BlockOn::from(b.obj)))
+        .collect();
+    // signatures of the listed findings
+    let first_shutdown = d.stores.iter().filter_map(|s| s.first_shutdown_inv).min();
+    for b in &d.run.out.blocked {
+        let on = BlockOn::from(b.obj);
+        for (it, ch) in &d.iter_chan {
+            // F4: an iterator dropped before it returned None, somebody blocked sending on its queue
+            if on == BlockOn::ChanSend(*ch) {
+                let dropped_early = d.calls.iter().any(|c| {
+                    matches!(c.op, OpK::DropIter { it: i } if i == *it)
+                        && !d.ev[..c.inv].iter().any(|e| matches!(&e.k, K::NextR { it: i, item: None } if i == it))
+                });
+                if dropped_early {
+                    vk(out, "C13", "deadlock", format!("dropping an unexhausted iterator hung: {}", blocked.join("; ")), "F4");
+                    return;
+                }
+            }
+            // F7: next() on an iterator created while or after the store shut down
+            if on == BlockOn::ChanRecv(*ch) {
+                let ic = d.calls.iter().find(|c| matches!(c.op, OpK::Iter { it: i, .. } if i == *it));
+                if let (Some(ic), Some(fs)) = (ic, first_shutdown) {
+                    if ic.ret_or_max() > fs {
+                        vk(out, "C13", "deadlock", format!("next() on an iterator created during/after shutdown hung: {}", blocked.join("; ")), "F7");
+                        return;
+                    }
+                }
+            }
+        }
+    }
+    v(out, "C13", "deadlock", format!("no thread can run: {}", blocked.join("; ")));
+}
+
+fn c13_complete(d: &Digest, out: &mut Vec<Violation>) {
+    if d.run.out.end == simrt::End::Leaked {
+        let stuck: Vec<String> = d
+            .run
+            .out
+            .blocked
+            .iter()
+            .filter(|b| b.name.as_deref().map(|n| n.starts_with("client-")).unwrap_or(false))
+            .map(|b| format!("t{}({}) on {:?}", b.tid, b.name.clone().unwrap_or_default(), BlockOn::from(b.obj)))
+            .collect();
+        if !stuck.is_empty() {
+            v(out, "C13", "deadlock", format!("client call never returned: {}", stuck.join("; ")));
+        }
+    }
+    // stop() completed because its timeout expired although nothing was scripted to stall
+    if prog_has_stalls(d.prog) {
+        return;
+    }
+    for sd in &d.stores {
+        for &ci in &sd.shutdowns {
+            let c = &d.calls[ci];
+            if matches!(c.op, OpK::Stop { .. } | OpK::DropStore { .. }) && d.timer_in_call(c) {
+                // known: an unexhausted, undropped iterator blocks the reducer by design of iter()
+                v(out, "C13", "stop-rescued-by-timeout", format!("store {}: stop() returned only because its timeout expired", sd.idx));
+                return;
+            }
+        }
+    }
 }
